@@ -8,15 +8,17 @@ From NeatModel Require Import Res F64 GoRand Genome Options Population MonadLemm
 From NeatModel Require Import FloatMono.
 From Coq Require Import Lia Floats.
 
-(* SurvivalThresh in [0, 2^900]; AgeSignificance positive and finite *)
+(* SurvivalThresh in [0, 2^29]; AgeSignificance positive and finite.  (With species of fewer than 2^31
+   members SurvivalThresh * float64(n) + 1 stays below 2^61, inside the range in which int(x) truncates;
+   from 2^63 on the amd64 conversion yields math.MinInt64 and adjustFitness panics: F64.f_trunc_Z.) *)
 Definition opts_float_ok (o : options) : Prop :=
-  PrimFloat.leb 0%float (o_survival o) = true /\ PrimFloat.leb (o_survival o) 0x1p+900%float = true /\
+  PrimFloat.leb 0%float (o_survival o) = true /\ PrimFloat.leb (o_survival o) 0x1p+29%float = true /\
   PrimFloat.ltb 0%float (o_age_sig o) = true /\ PrimFloat.ltb (o_age_sig o) infinity = true.
 
-(* members listed once, fewer than 2^63 of them, none marked for elimination, raw fitness >= 0
+(* members listed once, fewer than 2^31 of them, none marked for elimination, raw fitness >= 0
    (not NaN, +infinity allowed), highest fitness not NaN *)
 Definition species_inputs_ok (h : list organism) (s : species) : Prop :=
-  NoDup (sp_orgs s) /\ zlen (sp_orgs s) < 2 ^ 63 /\
+  NoDup (sp_orgs s) /\ zlen (sp_orgs s) < 2 ^ 31 /\
   forall k x, In k (sp_orgs s) -> hget h k = Ok x ->
               o_elim x = false /\ PrimFloat.leb 0%float (o_fit x) = true /\ PrimFloat.is_nan (o_highest x) = false.
 
@@ -46,10 +48,10 @@ Lemma species_hyps_of_inputs o h s : opts_float_ok o -> species_inputs_ok h s ->
 Proof.
   intros (T0 & T1 & S0 & S1) (Hnd & Hlen & Hm). split; [exact Hnd|]. split.
   - change (num_parents o (zlen (sp_orgs s))) with (np_of (o_survival o) (zlen (sp_orgs s))).
-    apply np_of_pos; [exact T0|exact T1|unfold zlen; lia].
+    apply (np_of_small (o_survival o) (zlen (sp_orgs s)) T0 T1). unfold zlen in *. lia.
   - intros k x Hk Hx. destruct (Hm k x Hk Hx) as (E & F & Hh). split; [exact E|]. split.
     + apply ext_not_nan, ext_iff.
-      apply (adjusted_mono o s x x S0 S1); [split; [exact (zlen_member _ k Hk)|exact Hlen]|exact F|].
+      apply (adjusted_mono o s x x S0 S1); [split; [exact (zlen_member _ k Hk)|lia]|exact F|].
       apply ext_leb_refl, ext_iff, F.
     + exact Hh.
 Qed.
@@ -90,7 +92,7 @@ Proof.
   destruct Hopt as (_ & _ & A0 & A1). destruct (Hin s0 Hs0') as (_ & Hlen & Hmem).
   destruct (Hmem _ xc Hck Hxc) as (_ & Fxc & _).
   destruct (adjusted_mono o s0 xc x A0 A1) as [E1 E2];
-    [split; [exact (zlen_member _ _ Hck)|exact Hlen]|exact Fxc|now apply ltb_leb|].
+    [split; [exact (zlen_member _ _ Hck)|lia]|exact Fxc|now apply ltb_leb|].
   apply leb_not_ltb_eqb; [now apply ext_iff|exact E2|exact Hy].
 Qed.
 
@@ -135,7 +137,7 @@ Proof.
     destruct Hopt as (_ & _ & A0 & A1). destruct (Hin s0 Hs0) as (_ & Hlen & Hmem).
     destruct (Hmem _ xb Hkb Hxb) as (_ & Fxb & _).
     destruct (adjusted_mono o s0 xb xb A0 A1) as [E1 E2];
-      [split; [exact (zlen_member _ _ Hkb)|exact Hlen]|exact Fxb|apply ext_leb_refl, ext_iff, Fxb|].
+      [split; [exact (zlen_member _ _ Hkb)|lia]|exact Fxb|apply ext_leb_refl, ext_iff, Fxb|].
     apply leb_not_ltb_eqb; [now apply ext_iff|exact E2|exact M1]. }
   split; [exact Heq|]. split; [exact Hcase|]. split.
   - intros Hexp Hrefs. rewrite <- Eg.
